@@ -185,6 +185,13 @@ fn acc_configs(quick: bool) -> Vec<AccCfg> {
             }
         }
     }
+    // tiny sets on large sketches: T just large enough to resolve a 0.2 % shift (per-sketch spread ~ 1/sqrt(m))
+    for &(b, q) in &[(2.0f64, 62u64), (1.2, 400), (1.001, 65534)] {
+        for &n in &[2u64, 5, 8] {
+            i += 1;
+            v.push(AccCfg { b, q, m: 4096, n, wide: i % 2 == 0, repeat: false, t: if quick { 4000 } else { 30_000 } });
+        }
+    }
     v
 }
 
